@@ -103,16 +103,48 @@ def order_checks(run, h):
     rng = np.random.RandomState(run.seed)
     fs = 100.0
     corners = {"none": [None, None], "low": [None, 12.0], "high": [1.5, None], "band": [1.5, 12.0]}
-    nrec = 4
+    nrec = 6
     base = []
     for r in range(nrec):
         # 380, 397: a tail is discarded; 300 = 3 x 100 and 292 = 4 x 73 samples: the record ends exactly on a window
-        # boundary, so the final window is the one that is one sample short
-        n = (380, 397, 300, 292)[r]
-        t = np.arange(n) / fs
+        # boundary, so the final window is the one that is one sample short; the last two have other sampling rates
+        # (one call on recordings with different time steps: every step acts on each recording at its own rate)
+        n = (380, 397, 300, 292, 311, 205)[r]
+        fs = (100.0, 100.0, 100.0, 100.0, 75.0, 50.0)[r]
         mk = lambda: np.cumsum(rng.normal(size=n)) * 0.3 + rng.normal(size=n) + 0.01 * np.arange(n)
         base.append(h.SeismicRecording3C(h.TimeSeries(mk(), 1 / fs), h.TimeSeries(mk(), 1 / fs), h.TimeSeries(mk(), 1 / fs),
                                          degrees_from_north=15.0 * (r + 1)))
+
+    # the filter primitive itself, against an independent statement of "zero-phase Butterworth with these corners":
+    # forward-backward second-order sections of the order-5 design at the record's own sampling rate; a sinusoid in the
+    # pass band survives, one far in the stop band does not
+    from scipy.signal import butter, sosfiltfilt
+    for rec in base:
+        fs_r = 1.0 / rec.ns.dt_in_seconds
+        for cname, (lo, hi) in corners.items():
+            if cname == "none":
+                continue
+            btype, wn = ("lowpass", hi) if lo is None else ("highpass", lo) if hi is None else ("bandpass", [lo, hi])
+            want = sosfiltfilt(butter(5, wn, btype, fs=fs_r, output="sos"), rec.ns.amplitude)
+            w = copy.deepcopy(rec)
+            w.butterworth_filter([lo, hi])
+            if not np.allclose(w.ns.amplitude, want, rtol=1e-9, atol=1e-9 * np.max(np.abs(want))):
+                run.violation(f"filter:{cname}", f"butterworth_filter({[lo, hi]}) at {fs_r} Hz differs from the zero-phase order-5 Butterworth "
+                              f"filter with these corners (max abs diff {np.max(np.abs(w.ns.amplitude - want)):.3g})", dict(kind="filter", corners=cname, fs=fs_r))
+            n_l = 4000
+            tt = np.arange(n_l) / fs_r
+            f_pass = {"low": 3.0, "high": 8.0, "band": 4.0}[cname]
+            f_stop = {"low": 24.0, "high": 0.2, "band": 24.0}[cname]
+            for f0, keep in ((f_pass, True), (f_stop, False)):
+                x = np.sin(2 * np.pi * f0 * tt)
+                t1 = h.TimeSeries(x.copy(), 1 / fs_r)
+                t1.butterworth_filter([lo, hi])
+                mid = slice(n_l // 4, 3 * n_l // 4)
+                gain = np.max(np.abs(t1.amplitude[mid]))
+                if (keep and abs(gain - 1) > 0.02) or (not keep and gain > 0.05):
+                    run.violation(f"filter:{cname}:gain", f"butterworth_filter({[lo, hi]}) at {fs_r} Hz: a {f0} Hz sinusoid leaves with amplitude {gain:.3f} "
+                                  f"({'pass' if keep else 'stop'} band)", dict(kind="filter-gain", corners=cname, fs=fs_r, f0=f0))
+            run.case(("filter", cname, fs_r))
 
     def run_steps(recs, steps, c):
         out = []
@@ -148,7 +180,7 @@ def order_checks(run, h):
                                          filter_corner_frequencies_in_hz=corners[c["f"]],
                                          window_length_in_seconds=None if c["s"] == "none" else float(c["s"]),
                                          detrend=None if c["d"] == "none" else c["d"])
-        for recs in ([base[0]], base, [base[2]], [base[3]]):
+        for recs in ([base[0]], base, [base[2]], [base[3]], base[::-1]):
             with warnings.catch_warnings():
                 warnings.simplefilter("ignore")
                 got = h.preprocess(copy.deepcopy(recs), st)
